@@ -68,6 +68,9 @@ func (e *Enc) script() string {
 		if ax := e.heapTypingAlloc(k, t, "alloc@0"); ax != "" {
 			b.WriteString(ax + "\n")
 		}
+		if k == "G.chan.nsent" {
+			fmt.Fprintf(&b, "(assert (forall ((c! Int)) (! (>= (select %s c!) 0) :pattern ((select %s c!)))))\n", t.S, t.S)
+		}
 	}
 	for _, k := range sortedKeys(e.extraDecls) {
 		fmt.Fprintf(&b, "(declare-const %s %s)\n", k, e.extraDecls[k])
@@ -271,7 +274,16 @@ func verifyFunc(p *Program, fn *ssa.Function, fc *FuncC, timeoutS int, filter0 f
 			rec = func(os []*Obl, whole bool) {
 				var r solveResult
 				if len(os) == 1 {
-					r = solveLeaf(prefix+fmt.Sprintf("(assert %s)\n(assert (not %s))\n(check-sat)\n", os[0].okPre, os[0].obSym), timeoutS)
+					q := prefix + fmt.Sprintf("(assert %s)\n(assert (not %s))\n(check-sat)\n", os[0].okPre, os[0].obSym)
+					if _, failedBefore := oblFailed.Load(os[0].Name); failedBefore {
+						// the obligation already resisted every retry in another split case: one attempt is enough here
+						r = solve(q, timeoutS, "")
+					} else {
+						r = solveLeaf(q, timeoutS)
+						if r.Result != "unsat" {
+							oblFailed.Store(os[0].Name, true)
+						}
+					}
 				} else if whole {
 					r = solveStaged(prefix+goalOf(os, whole)+"(check-sat)\n", timeoutS)
 				} else {
@@ -307,6 +319,8 @@ func verifyFunc(p *Program, fn *ssa.Function, fc *FuncC, timeoutS int, filter0 f
 
 // thorough tier: every discharged batch is re-run on the other solvers; agreement is recorded and a
 // `sat` answer contradicting an `unsat` one is a hard tooling error.
+var oblFailed sync.Map // obligation names that failed after all retries
+
 var crossCheck bool
 var crossMu sync.Mutex
 var crossStats = map[string]int{}
